@@ -125,11 +125,21 @@ void harness(void)
 	CHECK((long long)t == orc_epoch(b.y, b.m, b.d, b.H, b.M, b.S), "instant_to_epoch equals calendar seconds");
 	WITNESS_POINT();
 #elif defined L4B
-	/* library epoch -> instant is the inverse, and valid */
-	ASSUME(in.t >= orc_epoch(YLO, 1, 1, 0, 0, 0) && in.t < orc_epoch(YHI + 1, 1, 1, 0, 0, 0));
-	echs_instant_t r = epoch_to_echs_instant((time_t)in.t);
-	CHECK(orc_valid_date_p(r.y, r.m, r.d) && r.H < 24 && r.M < 60 && r.S < 60, "epoch_to_instant yields a valid instant");
-	CHECK(orc_epoch(r.y, r.m, r.d, r.H, r.M, r.S) == in.t, "epoch_to_instant equals the calendar");
+	/* library epoch -> instant is the inverse, and valid; the stamp is built as
+	 * day k (since 1970) and second-of-day s, both symbolic, which is every stamp */
+	ASSUME(in.t >= ORC_UNIX_DAY0 && in.t < orc_daynum(YHI + 1, 1, 1) + ORC_UNIX_DAY0);
+	ASSUME(in.dur >= 0 && in.dur < 86400);
+# if defined DATEONLY
+	ASSUME(in.dur == 0);
+# endif
+	const long long stamp = in.t * 86400LL + in.dur;
+	echs_instant_t r = epoch_to_echs_instant((time_t)stamp);
+	CHECK(r.y >= 1901 && r.y <= 2099 && r.m >= 1 && r.m <= 12 && r.d >= 1 && r.d <= 31 && orc_valid_date_p(r.y, r.m, r.d), "epoch_to_instant yields a valid date");
+	CHECK(r.H < 24 && r.M < 60 && r.S < 60, "epoch_to_instant yields a valid time");
+	CHECK(orc_daynum(r.y, r.m, r.d) + ORC_UNIX_DAY0 == in.t, "epoch_to_instant lands on the right day");
+	CHECK((long long)r.H * 3600 + r.M * 60 + r.S == in.dur, "epoch_to_instant lands on the right second");
+	/* and the library's two directions are mutually inverse */
+	CHECK((long long)echs_instant_to_epoch(r) == stamp, "instant_to_epoch(epoch_to_instant(t)) == t");
 	WITNESS_POINT();
 #elif defined L5
 	/* MS is injective on valid instants of one kind (so L1 and L2 imply add(b,diff(e,b)) == e) */
